@@ -178,21 +178,29 @@ tuple_leaves! { (0 A, 1 B) (0 A, 1 B, 2 C) (0 A, 1 B, 2 C, 3 D) }
 // ------------------------------------------------------------------------------------------
 #[derive(Clone, Debug)]
 pub enum Ev {
-    Assume { ok: bool },
-    AssumeEq { a: Vec<Leaf>, b: Vec<Leaf> },
+    Assume { ok: bool, lemma: Option<&'static str> },
+    AssumeEq { a: Vec<Leaf>, b: Vec<Leaf>, lemma: Option<&'static str> },
     Assert { id: &'static str, ok: bool },
     AssertEq { id: &'static str, a: Vec<Leaf>, b: Vec<Leaf> },
     Cover { id: &'static str },
     Out { id: &'static str, v: Vec<Leaf> },
 }
 thread_local! { pub static LOG: RefCell<Vec<Ev>> = RefCell::new(Vec::new()); }
+// Native only: which harness / lemma function is running.  An assumption logged inside a lemma function that was
+// *called from* a harness (depth >= 2) is a precondition of that lemma's application, i.e. an obligation, and the
+// replay must be able to tell it from an assumption about the inputs.
+thread_local! { pub static SCOPES: RefCell<Vec<&'static str>> = RefCell::new(Vec::new()); }
+pub struct Scope;
+impl Scope { pub fn enter(name: &'static str) -> Scope { SCOPES.with(|s| s.borrow_mut().push(name)); Scope } }
+impl Drop for Scope { fn drop(&mut self) { SCOPES.with(|s| { s.borrow_mut().pop(); }) } }
+fn lemma_scope() -> Option<&'static str> { SCOPES.with(|s| { let s = s.borrow(); if s.len() >= 2 { s.last().copied() } else { None } }) }
 fn log(e: Ev) { LOG.with(|l| l.borrow_mut().push(e)) }
 fn lv<T: Leaves>(x: &T) -> Vec<Leaf> { let mut v = Vec::new(); x.leaves(&mut v); v }
 
 /// Restrict the inputs (a precondition of the property).  Must precede the code it constrains.
-#[inline(never)] pub fn vassume(c: bool) { log(Ev::Assume { ok: c }) }
+#[inline(never)] pub fn vassume(c: bool) { log(Ev::Assume { ok: c, lemma: lemma_scope() }) }
 /// Equational precondition, leaf-wise (e.g. `|q|^2 = 1`); natively checked with tolerance.
-#[inline(never)] pub fn vassume_eq<T: Leaves>(a: T, b: T) { log(Ev::AssumeEq { a: lv(&a), b: lv(&b) }) }
+#[inline(never)] pub fn vassume_eq<T: Leaves>(a: T, b: T) { log(Ev::AssumeEq { a: lv(&a), b: lv(&b), lemma: lemma_scope() }) }
 /// Proof obligation: `c` holds on every path reaching this call.
 #[inline(never)] pub fn vassert(id: &'static str, c: bool) { log(Ev::Assert { id, ok: c }) }
 /// Proof obligation: the two values are equal leaf by leaf.
@@ -224,7 +232,10 @@ pub type HarnessFn = fn(&mut dyn Iterator<Item = Leaf>);
 #[macro_export]
 macro_rules! harnesses {
     ($reg:ident; $( $(#[$m:meta])* fn $name:ident ( $($arg:ident : $ty:ty),* $(,)? ) $body:block )*) => {
-        $( $(#[$m])* #[allow(unused_mut, unused_variables)] #[inline(never)] pub fn $name($($arg: $ty),*) $body )*
+        $( $(#[$m])* #[allow(unused_mut, unused_variables)] #[inline(never)] pub fn $name($($arg: $ty),*) {
+            #[cfg(feature = "native")] let _scope = $crate::Scope::enter(stringify!($name));
+            $body
+        } )*
         #[cfg(feature = "native")]
         pub fn $reg() -> Vec<(&'static str, $crate::HarnessFn)> {
             vec![ $( (stringify!($name), (|it: &mut dyn Iterator<Item = $crate::Leaf>| { $( let $arg: $ty = $crate::Leaves::build(it); )* $name($($arg),*); }) as $crate::HarnessFn) ),* ]
